@@ -39,6 +39,9 @@ impl Subject for HLruSubj {
         }
         r
     }
+    fn weak_audit(&self, limit: usize) -> Ints {
+        self.inner.weak_audit(limit)
+    }
     fn snapshot(&self) -> Ints {
         let c = &self.inner.c;
         let (ok, _) = audit(c);
@@ -115,6 +118,9 @@ impl Subject for HSlruSubj {
             rename_after_clone(&self.names, &[prob, prot]);
         }
         r
+    }
+    fn weak_audit(&self, limit: usize) -> Ints {
+        self.inner.weak_audit(limit)
     }
     fn snapshot(&self) -> Ints {
         let (prob, prot) = self.inner.c.verif_parts();
@@ -270,6 +276,9 @@ impl Subject for HTwoQSubj {
     fn apply(&mut self, op: &[i128]) -> Ints {
         self.inner.apply(op)
     }
+    fn weak_audit(&self, limit: usize) -> Ints {
+        self.inner.weak_audit(limit)
+    }
     fn snapshot(&self) -> Ints {
         let (r, f, g, rs) = self.inner.c.verif_parts();
         let mut out = vec![self.inner.c.cap() as i128, rs as i128, g.cap() as i128];
@@ -292,6 +301,9 @@ impl HArcSubj {
 impl Subject for HArcSubj {
     fn apply(&mut self, op: &[i128]) -> Ints {
         self.inner.apply(op)
+    }
+    fn weak_audit(&self, limit: usize) -> Ints {
+        self.inner.weak_audit(limit)
     }
     fn snapshot(&self) -> Ints {
         let (t1, b1, t2, b2) = self.inner.c.verif_parts();
@@ -322,6 +334,9 @@ impl Subject for HWTinySubj {
             rename_after_clone(&self.names, &[w, prob, prot]);
         }
         r
+    }
+    fn weak_audit(&self, limit: usize) -> Ints {
+        self.inner.weak_audit(limit)
     }
     fn snapshot(&self) -> Ints {
         let (t, w, m) = self.inner.c.verif_parts();
